@@ -109,12 +109,16 @@ Definition replay_prefix_verdict (l : list (lop * list obs)) (pending : option l
   | inr k => N.of_nat k + 1
   end.
 
-(* where an out-of-scope id enters: the first read of lookup_cid (operation number, node, name) whose result is not in the
-   visible set of the pipeline under construction at the moment of the read *)
+(* where an out-of-scope id enters: the first read of lookup_cid, or the first declare answered from node_mapping, (operation
+   number, node, name) whose result is not in the visible set of the pipeline under construction at that moment *)
 Definition read_scope (s s' : lstate) (b : obs) : option (N * option str) :=
   match b with
   | BLookup post node name (Some c) =>
       if memN c (fvis (frames (if post then s' else s))) then None else Some (node, name)
+  | BCid node c =>
+      (* a declare answered from node_mapping (`cached`) or aliased to a column: the id it hands back; a new Compute
+         (next_cid moved) is in scope by construction *)
+      if N.eqb (next_cid s') (next_cid s) then (if memN c (fvis (frames s)) then None else Some (node, None)) else None
   | _ => None
   end.
 
